@@ -47,8 +47,17 @@ def make_case(args):
         return xr.DataArray(np.array([rng.uniform(lo, hi) for _ in range(npos)]).reshape(tuple(da.sizes[d] for d in lead)), dims=lead,
                             coords={d: da[d] for d in lead})
     aux = dict(wspd=auxarr(2, 20), wdir=auxarr(0, 360), dpt=auxarr(8, 300))
+    if rng.random() < 0.5:
+        # mix of very deep and shallow sites (relative depth matters to the dispersion relation)
+        import xarray as xr2
+        vals = np.array([rng.choice([6.0, 20.0, 500.0, 2000.0, 4000.0]) for _ in range(npos)]).reshape(tuple(da.sizes[d] for d in lead))
+        aux["dpt"] = xr2.DataArray(vals, dims=lead, coords={d: da[d] for d in lead})
     C = opcat.catalogue()
-    opnames = rng.sample(sorted(C), 7)
+    C["mss_dpt"] = lambda da, aux: da.spec.mss(depth=aux["dpt"])
+    C["uss_dpt"] = lambda da, aux: da.spec.uss(depth=aux["dpt"])
+    C["celerity_dpt"] = lambda da, aux: da.spec.celerity(depth=aux["dpt"])
+    C["wavelen_dpt"] = lambda da, aux: da.spec.wavelen(depth=aux["dpt"])
+    opnames = rng.sample(sorted(C), 7) + rng.sample(["mss_dpt", "uss_dpt", "celerity_dpt", "wavelen_dpt", "ptm4"], 2)
     positions = [dict(zip(lead, idx)) for idx in np.ndindex(*[da.sizes[d] for d in lead])]
     out = []
     # perturbation: replace the spectrum at one position
@@ -108,6 +117,25 @@ def make_case(args):
         except Exception as e:
             rec["diffs"].append(dict(kind="dataset_vs_dataarray", what=f"raised {type(e).__name__}: {str(e)[:160]}"))
         out.append(rec)
+    # Dataset accessor vs efth accessor after an in-place coordinate edit through ds.coords[...]
+    try:
+        ds2 = da.to_dataset(name="efth")
+        float(ds2.spec.hs().sum())
+        style = rng.choice(["coords_dir", "coords_freq", "item_dir"])
+        if style == "coords_dir":
+            ds2.coords["dir"] = (ds2.dir.values * 0.5)
+        elif style == "coords_freq":
+            ds2.coords["freq"] = ds2.freq.values * 1.5
+        else:
+            ds2["dir"] = (ds2.dir.values + 7.0) % 360
+        for nm in ("hs", "tm01", "dm"):
+            d = opcat.compare(opcat.canon(getattr(ds2.spec, nm)()), opcat.canon(getattr(ds2.efth.spec, nm)()), rel=1e-12)
+            if d:
+                out.append(dict(op=nm, icase=icase, dims=list(da.dims), shape=[int(da.sizes[x]) for x in da.dims], order=order, npos=npos,
+                                diffs=[dict(kind="dataset_vs_dataarray", what=f"after {style} edit: {d}")]))
+    except Exception as e:
+        out.append(dict(op="coords_edit", icase=icase, dims=list(da.dims), shape=[int(da.sizes[x]) for x in da.dims], order=order, npos=npos,
+                        crash=f"{type(e).__name__}: {str(e)[:200]}"))
     # light correspondence with the Lean model (ties the map-of-single-spectrum model to the code): hs/tm01 at one position
     pos = positions[0]
     E2 = np.asarray(da.isel(pos).transpose("freq", "dir").values, dtype=float)
